@@ -1,5 +1,7 @@
 import TantivyModel.Driver.Proto
 import TantivyModel.Model.Columnar.Column
+import TantivyModel.Model.Columnar.Writer
+import TantivyModel.Model.Columnar.CompactSpace
 /-!
 Line protocol of the C08 model (fast fields / columnar).
 
@@ -7,11 +9,14 @@ Line protocol of the C08 model (fast fields / columnar).
   unpack <w> <hex> <idxs>            -> values BitUnpacker::get returns at idxs (`bad-width` if refused)
   numbits <n>                        -> compute_num_bits
   stats <vals>                       -> `min max gcd rows`
+  transform <min> <gcd> <lo> <hi>    -> `a b` | none (transform_range_before_linear_transformation as the source has it)
   encode <codec> <vals>              -> hex of the column values (codec byte included) | none
   decode <hex> <idxs|all>            -> `codec min max gcd rows;v,v,..` | corrupt
+  decode128 <hex> <idxs|all>         -> `rows min max bits ranges;v,v,..` of a compact-space u128 column | corrupt
   optenc <numRows> <rows>            -> hex of serialize_optional_index
   optidx <hex> <docs> <ranks>        -> `numDocs numNonNull;rank..;rankIfExists..;select..` (x = none)
   i64_to_u64 / u64_to_i64 / f64_to_u64 / u64_to_f64 <bits>
+  writer <rows>                      -> `card;rows` written by the ColumnWriter op-log pipeline and read back
   roundtrip <card|auto> <rows>       -> rows read back from encodeAs (rows: `1,2|-|3`)
   shuffle <order> <inputs>           -> rows of read(mergeShuffled); order `seg:row,seg:row`,
                                         inputs separated by `/`, each `~n` (missing, n docs) or rows
@@ -84,6 +89,14 @@ def handle : List String → String
     match natList vals with
     | some vs => let s := collectStats vs; s!"{s.min} {s.max} {s.gcd} {s.numRows}"
     | none => "bad-op"
+  | ["transform", mn, g, lo, hi] =>
+    match mn.toNat?, g.toNat?, lo.toNat?, hi.toNat? with
+    | some mn, some g, some lo, some hi =>
+      if g = 0 then "bad-op" else
+      match transformRangeCur { gcd := g, min := mn, max := mn, numRows := 0 } lo hi with
+      | some r => s!"{r.1} {r.2}"
+      | none => "none"
+    | _, _, _, _ => "bad-op"
   | ["encode", c, vals] =>
     match c.toNat?, natList vals with
     | some c, some vs =>
@@ -105,6 +118,20 @@ def handle : List String → String
         | none => "bad-op"
       | none => "corrupt"
     | none => "bad-op"
+  | ["decode128", h, idxs] =>
+    match bytesArg h with
+    | some bytes =>
+      match openU128Column bytes with
+      | some c =>
+        let idxs := if idxs == "all" then some (List.range c.numVals) else natList idxs
+        match idxs with
+        | some is =>
+          if is.all (fun i => decide (i < c.numVals)) then
+            s!"{c.numVals} {c.minValue} {c.maxValue} {c.numBits} {c.ranges.length};{showNatList (is.map c.get)}"
+          else "bad-op"
+        | none => "bad-op"
+      | none => "corrupt"
+    | none => "bad-op"
   | ["optenc", n, rows] =>
     match n.toNat?, natList rows with
     | some n, some rs => hexOfBytes (ofNats (optEnc rs n))
@@ -121,6 +148,13 @@ def handle : List String → String
   | ["u64_to_i64", x] => match x.toNat? with | some x => toString (Gen.Col.u64_to_i64 (bv x)).toNat | none => "bad-op"
   | ["f64_to_u64", x] => match x.toNat? with | some x => toString (Gen.Col.f64_to_u64 (bv x)).toNat | none => "bad-op"
   | ["u64_to_f64", x] => match x.toNat? with | some x => toString (Gen.Col.u64_to_f64 (bv x)).toNat | none => "bad-op"
+  | ["writer", rows] =>
+    match parseRows rows with
+    | some rows =>
+      let e := writerEncode rows
+      let c := match e.1 with | .full => "full" | .optional _ _ => "optional" | .multivalued _ _ _ => "multivalued" | .empty _ => "empty"
+      c ++ ";" ++ showRows (read e.1 e.2)
+    | none => "bad-op"
   | ["roundtrip", c, rows] =>
     match parseCard c, parseRows rows with
     | some c, some rows =>
